@@ -47,14 +47,32 @@ pub fn child(id: &str, seed: u64) -> i32 {
 /// Case functions exposed to the libFuzzer targets (same decoder, same oracle).
 pub fn fuzz_entry(id: &str, lane: &str) -> Option<&'static crate::engine::runner::CaseFn<'static>> {
     match (id, lane) {
+        ("C02", "cell-schedules") => Some(&c02::case_sched),
         ("C03", "triples") => Some(&c03::case_triples),
+        ("C03", "hash-race") => Some(&c03::case_race),
+        ("C04", "sequences") => Some(&c04::case_seq),
+        ("C04", "threads-op-granularity") => Some(&c04::case_threads),
+        ("C05", "schedules") => Some(&c05::case_sched),
+        ("C06", "sequential") => Some(&c06::case_seq),
+        ("C06", "concurrent") => Some(&c06::case_conc),
+        ("C07", "histories") => Some(&c07::case_seq),
+        ("C07", "schedules") => Some(&c07::case_sched),
         ("C08", "renders") => Some(&c08::case_render),
         ("C09", "writer-sequences") => Some(&c09::case_writer),
+        ("C10", "sequential-model") => Some(&c10::case_seq),
+        ("C10", "schedules") => Some(&c10::case_sched),
+        ("C12", "recency-direct") => Some(&c12::case_direct),
+        ("C12", "prometheus-mock-clock") => Some(&c12::case_prom),
         ("C13", "layer-trees") => Some(&c13::case_layers),
         ("C14", "ops") => Some(&c14::case_tracked),
         ("C15", "histogram-storage") => Some(&c15::case_hist),
         ("C15", "matchers") => Some(&c15::case_match),
         ("C15", "rolling-summary") => Some(&c15::case_roll),
+        ("C16", "sequential") => Some(&c16::case_seq),
+        ("C16", "concurrent") => Some(&c16::case_conc),
+        ("C17", "span-trees") => Some(&c17::case_spans),
+        ("C19", "direct-histories") => Some(&c19::case_direct),
+        ("C20", "schedules") => Some(&c20::case_sched),
         _ => None,
     }
 }
